@@ -2,6 +2,7 @@
 CONSTANTS
   Snaps <- MCSnaps2
   MaxChanges = 2
+  ACfgs <- MCACfgsQ
   WithPartial = TRUE
 INIT Init
 NEXT Next
